@@ -11,6 +11,7 @@
    of checks/c04.py (real coroutines over fake transports, same inputs, compared field by field).
    Definitions only; executable.  This is the model of the REPAIRED code (fixes F12 F13 F13b F13c). *)
 From Coq Require Import ZArith NArith List Bool.
+From Slsk Require Export C04.Types.
 From SlskGen Require Import C04Gen.
 Import ListNotations.
 Open Scope Z_scope.
@@ -90,18 +91,6 @@ Fixpoint recv (remaining : Z) (ps : list bytes) (got : Z) : list bytes * bool :=
     end
   else ([], true).
 
-(* what ends the stream as seen by the reader *)
-Inductive term := TEof | TReset | TTimeout.
-
-(* final state of the download as left by one attempt.
-   DQueued  = sending the offset failed: the transfer is put back to QUEUED (fix F13b);
-   DRefused = the request carried no file size: it is refused (PeerTransferReply allowed=false) before
-              any state change, the transfer stays as it was (fix F13);
-   DWedged / DWedgedInit = DOWNLOADING / INITIALIZING with no transfer task.  The repaired code never
-              produces them (C04_terminal); they stay in the type so that the theorem says something
-              and so that the correspondence check can name such an observation. *)
-Inductive dstate := DComplete | DIncomplete | DFailedCancelled | DQueued | DRefused | DWedged | DWedgedInit.
-
 Record dres := mkD {
   d_local : bytes;          (* the local file afterwards *)
   d_state : dstate;
@@ -123,9 +112,9 @@ Definition download_core (announced : option Z) (local : bytes) (send_ok : bool)
            (ps : list bytes) (t : term) : dres :=
   let off := len local in
   match announced with
-  | None => mkD local DRefused None [] (-1) []
+  | None => mkD local dl_nosize_state None [] (-1) []
   | Some fsz =>
-      if negb send_ok then mkD local DQueued None [] off []
+      if negb send_ok then mkD local dl_offset_fail_state None [] off []
       else
         let wire := le offset_width (Z.to_N off) in
         let '(w, reached) := recv (recv_size fsz off) ps 0 in
@@ -133,8 +122,8 @@ Definition download_core (announced : option Z) (local : bytes) (send_ok : bool)
         let bt := progress_add off (len written) in
         let st :=
           if orb reached (match t with TEof => true | _ => false end)
-          then (if is_transfered_b fsz bt then DComplete else DFailedCancelled)
-          else DIncomplete in
+          then dl_done_state (is_transfered_b fsz bt)
+          else dl_read_error_state in
         mkD (if download_append then local ++ written else written) st (Some off) wire bt (map len w)
   end.
 
@@ -149,12 +138,6 @@ Definition download_session (announced : option Z) (local : bytes) (send_ok : bo
        ConnectionWriteError -> FAILED + PeerUploadFailed to the peer
      else: receive_until_eof(raise_exception=False)  (no timeout)
            is_transfered() -> COMPLETE else FAILED *)
-(* UStuck      = UPLOADING, waiting (without timeout) for the peer to close;
-   UFailedRead  = FAILED with reason 'File read error.' (open/seek/read failed; with fix F13c also
-                  the ValueError of seek for offsets >= 2^63), connection closed by the uploader;
-   UWedged      = UPLOADING with no transfer task: never produced by the repaired code. *)
-Inductive ustate := UComplete | UFailed | UQueued | UStuck | UFailedRead | UWedged.
-
 Record ures := mkU {
   u_wire : bytes;           (* file bytes put on the wire *)
   u_state : ustate;
@@ -175,21 +158,44 @@ Fixpoint send_loop (ps : list bytes) (cut : option Z) (sent : Z) : list bytes * 
 Definition upload_core (filesize : Z) (offset : option N)
            (ps : list bytes) (cut : option Z) (peer_closes : bool) : ures :=
   match offset with
-  | None => mkU [] UQueued 0 false
+  | None => mkU [] ul_offset_fail_state 0 false
   | Some o =>
-      if N.leb 9223372036854775808 o then mkU [] UFailedRead (Z.of_N o) false else
+      if N.leb 9223372036854775808 o
+      then mkU [] (if ul_seek_error_handled then ul_file_error_state else UWedged) (Z.of_N o) false else
       let '(w, ok) := send_loop ps cut 0 in
       let wire := concat w in
       let bt := progress_add (Z.of_N o) (len wire) in
-      if negb ok then mkU wire UFailed bt true
-      else if negb peer_closes then mkU wire UStuck bt false
-      else mkU wire (if is_transfered_b filesize bt then UComplete else UFailed) bt false
+      if negb ok then mkU wire ul_write_error_state bt ul_write_error_msg
+      else if ul_waits_eof && negb eof_wait_bounded && negb peer_closes then mkU wire UStuck bt false
+      else mkU wire (ul_done_state (is_transfered_b filesize bt)) bt false
   end.
 
 Definition upload_session (src : bytes) (filesize : Z) (offset : option N) (grant : N)
            (cut : option Z) (peer_closes : bool) : ures :=
   upload_core filesize offset
     (match offset with Some o => chop_all grant (if upload_seek then dropN o src else src) | None => [] end) cut peer_closes.
+
+(* ---- how the uploader reads the offset (receive_transfer_offset) ----------------------------
+   [segs]: the bytes the downloader wrote on the file connection, as the TCP segments in which they
+   arrive, before it closes.  readexactly(width) waits until width bytes are there (None: the
+   connection ended first); a plain read would take whatever the first segment holds. *)
+Definition read_offset (segs : list bytes) : option N :=
+  let w := N.of_nat offset_read_width in
+  if offset_read_exact then
+    let s := concat segs in
+    if Nat.ltb (length s) offset_read_width then None else Some (le_decode (takeN w s))
+  else
+    match filter (fun p => match p with [] => false | _ => true end) segs with
+    | [] => None
+    | p :: _ => Some (le_decode (takeN w p))
+    end.
+
+Definition upload_session_wire (src : bytes) (filesize : Z) (osegs : list bytes) (grant : N)
+           (cut : option Z) (peer_closes : bool) : ures :=
+  upload_session src filesize (read_offset osegs) grant cut peer_closes.
+
+(* the 8 offset bytes split after the first [k] bytes *)
+Definition split_at (k : N) (s : bytes) : list bytes := [takeN k s; dropN k s].
 
 (* ---- the honest pair and retries ----------------------------------------------------------- *)
 
@@ -231,6 +237,29 @@ Fixpoint retry_offsets (src local : bytes) (fs : list (fault * list N)) : list (
       let d := pair_download src local f ch in
       d_offset d :: retry_offsets src (d_local d) r
   end.
+
+(* ---- the pair over several attempts: who retries --------------------------------------------
+   Manager level (hand model of _get_queued_transfers / _queue_remotely / _on_peer_transfer_queue /
+   _on_peer_upload_failed, fingerprinted): an INCOMPLETE or re-QUEUED download is queued remotely
+   again (remotely_queued is cleared when the transfer starts), and the uploader re-queues a FAILED
+   or COMPLETE upload when it is asked again, so a new attempt follows.  A download that ended
+   FAILED with a reason (Cancelled: the file connection was closed cleanly before the end) is not
+   retried by the downloader, and the uploader never offers the file again by itself. *)
+Definition retried (s : dstate) : bool :=
+  match s with DIncomplete | DQueued => true | _ => false end.
+
+(* faults of the successive attempts, then fault-free attempts; result: file, state, attempts *)
+Fixpoint pair_run (src local : bytes) (fs : list (fault * list N)) : bytes * dstate * nat :=
+  match fs with
+  | [] => let d := pair_download src local NoFault [] in (d_local d, d_state d, 1%nat)
+  | (f, ch) :: r =>
+      let d := pair_download src local f ch in
+      if retried (d_state d)
+      then let '(l, s, n) := pair_run src (d_local d) r in (l, s, S n)
+      else (d_local d, d_state d, 1%nat)
+  end.
+
+Definition not_eof (f : fault) : bool := match f with CutEof _ => false | _ => true end.
 
 Definition prefix (l s : bytes) : Prop := exists t, s = l ++ t.
 
@@ -322,11 +351,30 @@ Definition bad_d (cs : list dcase) : list (list Z) :=
                      chain bs base id (slices_with bs base l0) ss 0) cs.
 
 (* upload case: id, src (seed, n), filesize, offset, grant, cut, peer closes, expected (state, wire, bt, failmsg) *)
-Definition ucase := (Z * (Z * Z) * Z * option Z * Z * option Z * bool * (Z * spz * Z * bool))%type.
+(* upload case: ..., offset, position at which the 8 offset bytes are split into two segments (0: one), ... *)
+Definition ucase := (Z * (Z * Z) * Z * option Z * Z * Z * option Z * bool * (Z * spz * Z * bool))%type.
 Definition bad_u (cs : list ucase) : list (list Z) :=
   flat_map (fun c =>
-    let '(id, bs, fsz, off, grant, cut, pc, (st, wsp, bt, fm)) := c in
+    let '(id, bs, fsz, off, osp, grant, cut, pc, (st, wsp, bt, fm)) := c in
     let base := pat (Z.to_N (fst bs)) (Z.to_N (snd bs)) in
-    let u := upload_session base fsz (option_map Z.to_N off) (Z.to_N grant) cut pc in
+    let u := match off with
+             | None => upload_session base fsz None (Z.to_N grant) cut pc
+             | Some o => upload_session_wire base fsz
+                           (let w := le 8 (Z.to_N o) in if Z.eqb osp 0 then [w] else split_at (Z.to_N osp) w)
+                           (Z.to_N grant) cut pc
+             end in
     if Z.eqb (ucode (u_state u)) st && beq (u_wire u) (slice_with bs base wsp) && Z.eqb (u_bt u) bt && Bool.eqb (u_failmsg u) fm
     then [] else [[id; ucode (u_state u); u_bt u; len (u_wire u)]]) cs.
+
+(* pair case: id, (seed, n), initial local length, faults as (kind 0 none/1 reset/2 eof, delivered bytes), expected (file length, state, attempts) *)
+Definition pcase := (Z * (Z * Z) * Z * list (Z * Z) * (Z * Z * Z))%type.
+Definition fault_of (x : Z * Z) : fault * list N :=
+  let '(k, c) := x in
+  ((if Z.eqb k 1 then CutReset (Z.to_N c) else if Z.eqb k 2 then CutEof (Z.to_N c) else NoFault), []).
+Definition bad_p (cs : list pcase) : list (list Z) :=
+  flat_map (fun c =>
+    let '(id, bs, l0, fs, (elen, est, eatt)) := c in
+    let base := pat (Z.to_N (fst bs)) (Z.to_N (snd bs)) in
+    let '(l, s, n) := pair_run base (takeN (Z.to_N l0) base) (map fault_of fs) in
+    if Z.eqb (len l) elen && Z.eqb (dcode s) est && Z.eqb (Z.of_nat n) eatt && beq l (takeN (Z.to_N elen) base)
+    then [] else [[id; len l; dcode s; Z.of_nat n]]) cs.
